@@ -61,3 +61,27 @@ func (c *ReplayChooser) Intn(n int, tag string) int {
 
 // Used reports how many choices were consumed.
 func (c *ReplayChooser) Used() int { return c.pos }
+
+// PrefixChooser replays a recorded prefix and continues with a fresh random stream; it is
+// how a run is re-executed identically up to an injected crash point and then explored on.
+type PrefixChooser struct {
+	Prefix []int32
+	pos    int
+	Rand   *RandChooser
+	Trace  []int32
+}
+
+func (c *PrefixChooser) Intn(n int, tag string) int {
+	var v int
+	if c.pos < len(c.Prefix) {
+		v = int(c.Prefix[c.pos])
+		if v >= n || v < 0 {
+			v = ((v % n) + n) % n
+		}
+	} else {
+		v = c.Rand.Intn(n, tag)
+	}
+	c.pos++
+	c.Trace = append(c.Trace, int32(v))
+	return v
+}
